@@ -83,6 +83,7 @@ def seq_len(v):
 def seq_get(s, i):
     """element i (0 <= i < len assumed) -> (value, type facts)."""
     i = to_int_term(i) if not isinstance(i, int) else i
+    i = _off(s.base, i)
     leaves = [z3.Select(a, i) for a in s.arrs]
     facts = []
     for sh, t in zip(shape_leaves(s.elem), leaves):
@@ -90,30 +91,28 @@ def seq_get(s, i):
     return build_from_leaves(s.elem, iter(leaves)), facts
 
 
+def _off(base, i):
+    if isinstance(base, int) and base == 0:
+        return i
+    if isinstance(base, int) and isinstance(i, int):
+        return base + i
+    return to_int_term(base) + (i if not isinstance(i, int) else i)
+
+
 def seq_append(s, x):
     fl = flatten_value(s.elem, x)
     n = s.length
-    return SeqV(n + 1, s.elem, [z3.Store(a, n, v) for a, v in zip(s.arrs, fl)], s.kind)
+    return SeqV(n + 1, s.elem, [z3.Store(a, _off(s.base, n), v) for a, v in zip(s.arrs, fl)], s.kind, s.base)
 
 
 def seq_set(s, i, x):
     fl = flatten_value(s.elem, x)
-    return SeqV(s.length, s.elem, [z3.Store(a, i, v) for a, v in zip(s.arrs, fl)], s.kind)
+    return SeqV(s.length, s.elem, [z3.Store(a, _off(s.base, i), v) for a, v in zip(s.arrs, fl)], s.kind, s.base)
 
 
 def seq_slice(s, lo, hi):
-    """s[lo:hi] with 0 <= lo <= hi <= len already normalised."""
-    if isinstance(lo, int) and lo == 0:
-        return SeqV(hi, s.elem, s.arrs, s.kind)
-    from . import ops
-    j = z3.Int(fresh_name("j"))
-    lo_t = to_int_term(lo) if not isinstance(lo, int) else lo
-    arrs = []
-    for a in s.arrs:
-        r = z3.Array(fresh_name("slice"), z3.IntSort(), a.sort().range())
-        ops.define(r.decl().name(), z3.ForAll([j], z3.Select(r, j) == z3.Select(a, j + lo_t), patterns=[z3.Select(r, j)]))
-        arrs.append(r)
-    return SeqV(hi - lo, s.elem, arrs, s.kind)
+    """s[lo:hi] with 0 <= lo <= hi <= len already normalised: same arrays, shifted base"""
+    return SeqV(hi - lo, s.elem, s.arrs, s.kind, _off(s.base, lo))
 
 
 def seq_concat(a, b):
@@ -127,7 +126,7 @@ def seq_concat(a, b):
         for k in range(b.length):
             v, _ = seq_get(b, k)
             out = seq_append(out, v)
-        return SeqV(out.length, elem or a.elem, out.arrs, a.kind)
+        return SeqV(out.length, elem or a.elem, out.arrs, a.kind, out.base)
     from . import ops
     j = z3.Int(fresh_name("j"))
     n = to_int_term(a.length)
@@ -137,10 +136,10 @@ def seq_concat(a, b):
         nm = r.decl().name()
         if isinstance(a.length, int) and a.length <= 64:
             for k in range(a.length):
-                ops.define(nm, z3.Select(r, k) == z3.Select(x, k))
-            ops.define(nm, z3.ForAll([j], z3.Implies(j >= a.length, z3.Select(r, j) == z3.Select(y, j - a.length)), patterns=[z3.Select(r, j)]))
+                ops.define(nm, z3.Select(r, k) == z3.Select(x, _off(a.base, k)))
+            ops.define(nm, z3.ForAll([j], z3.Implies(j >= a.length, z3.Select(r, j) == z3.Select(y, _off(b.base, j - a.length))), patterns=[z3.Select(r, j)]))
         else:
-            ops.define(nm, z3.ForAll([j], z3.Select(r, j) == z3.If(j < n, z3.Select(x, j), z3.Select(y, j - n)), patterns=[z3.Select(r, j)]))
+            ops.define(nm, z3.ForAll([j], z3.Select(r, j) == z3.If(j < n, z3.Select(x, _off(a.base, j)), z3.Select(y, _off(b.base, j - n))), patterns=[z3.Select(r, j)]))
         arrs.append(r)
     return SeqV(a.length + b.length, elem or a.elem, arrs, a.kind)
 
@@ -160,16 +159,16 @@ def seq_equal(a, b):
             return False
         cs = []
         for k in range(la):
-            cs.extend([z3.Select(x, k) == z3.Select(y, k) for x, y in zip(a.arrs, b.arrs)])
+            cs.extend([z3.Select(x, _off(a.base, k)) == z3.Select(y, _off(b.base, k)) for x, y in zip(a.arrs, b.arrs)])
         return z3.And(*cs) if cs else True
     n = la if isinstance(la, int) else lb
     if isinstance(n, int) and n <= 64:
         cs = [to_int_term(la) == to_int_term(lb)]
         for k in range(n):
-            cs.extend([z3.Select(x, k) == z3.Select(y, k) for x, y in zip(a.arrs, b.arrs)])
+            cs.extend([z3.Select(x, _off(a.base, k)) == z3.Select(y, _off(b.base, k)) for x, y in zip(a.arrs, b.arrs)])
         return z3.And(*cs)
     j = z3.Int(fresh_name("q"))
-    body = z3.And(*[z3.Select(x, j) == z3.Select(y, j) for x, y in zip(a.arrs, b.arrs)])
+    body = z3.And(*[z3.Select(x, _off(a.base, j)) == z3.Select(y, _off(b.base, j)) for x, y in zip(a.arrs, b.arrs)])
     return z3.And(to_int_term(la) == to_int_term(lb),
                   z3.ForAll([j], z3.Implies(z3.And(j >= 0, j < to_int_term(la)), body)))
 
@@ -188,5 +187,9 @@ def seq_ite(c, a, b):
     el = unify_shapes(a.elem, b.elem)
     if isinstance(c, bool):
         return a if c else b
+    if not (isinstance(a.base, int) and isinstance(b.base, int) and a.base == b.base):
+        return SeqV(z3.If(c, to_int_term(a.length), to_int_term(b.length)), el,
+                    [z3.If(c, x, y) for x, y in zip(a.arrs, b.arrs)], a.kind,
+                    z3.If(c, to_int_term(a.base), to_int_term(b.base)))
     return SeqV(z3.If(c, to_int_term(a.length), to_int_term(b.length)), el,
-                [z3.If(c, x, y) for x, y in zip(a.arrs, b.arrs)], a.kind)
+                [z3.If(c, x, y) for x, y in zip(a.arrs, b.arrs)], a.kind, a.base)
